@@ -8,27 +8,27 @@ open ESV ESV.Beh
 
 /-! ### positions in a placed piece -/
 
-theorem Placed.mid {rs : List (List LItem)} {r i0 : Nat} {pre mid post : List LItem} (h : Placed rs r i0 (pre ++ mid ++ post)) :
-    Placed rs r (i0 + pre.length) mid := h.left.right
+theorem Placed.mid {c : Copy} {rs : List (List LItem)} {r i0 : Nat} {pre mid post : List LItem} (h : Placed c rs r i0 (pre ++ mid ++ post)) :
+    Placed c rs r (i0 + pre.length) mid := h.left.right
 
-theorem Placed.here {rs : List (List LItem)} {r i0 : Nat} {pre post : List LItem} {x : LItem} (h : Placed rs r i0 (pre ++ x :: post)) :
-    itemAt rs ⟨r, i0 + pre.length⟩ = some x := h.item (d := pre.length) (by simp)
+theorem Placed.here {c : Copy} {rs : List (List LItem)} {r i0 : Nat} {pre post : List LItem} {x : LItem} (h : Placed c rs r i0 (pre ++ x :: post)) :
+    ItemC c rs ⟨r, i0 + pre.length⟩ x := h.item (d := pre.length) (by simp)
 
-theorem Placed.lbl {rs : List (List LItem)} (hn : (labelIds rs.flatten).Nodup) {r i0 : Nat} {pre post : List LItem} {l : Nat} {nm : Bool}
-    (h : Placed rs r i0 (pre ++ LItem.label l nm :: post)) : target rs l = ⟨r, i0 + pre.length⟩ :=
+theorem Placed.lbl {c : Copy} {rs : List (List LItem)} (hn : (labelIds rs.flatten).Nodup) {r i0 : Nat} {pre post : List LItem} {l : Nat} {nm : Bool}
+    (h : Placed c rs r i0 (pre ++ LItem.label l nm :: post)) : target rs (c.σ l) = ⟨r, i0 + pre.length⟩ :=
   h.resolve hn (d := pre.length) (nm := nm) (by simp)
 
-theorem Placed.here' {rs : List (List LItem)} {r i0 : Nat} {items : List LItem} (h : Placed rs r i0 items) (pre post : List LItem)
-    (x : LItem) (e : items = pre ++ x :: post) {q : Nat} (hq : q = i0 + pre.length) : itemAt rs ⟨r, q⟩ = some x := by
+theorem Placed.here' {c : Copy} {rs : List (List LItem)} {r i0 : Nat} {items : List LItem} (h : Placed c rs r i0 items) (pre post : List LItem)
+    (x : LItem) (e : items = pre ++ x :: post) {q : Nat} (hq : q = i0 + pre.length) : ItemC c rs ⟨r, q⟩ x := by
   subst e hq; exact h.here
 
-theorem Placed.lbl' {rs : List (List LItem)} (hn : (labelIds rs.flatten).Nodup) {r i0 : Nat} {items : List LItem}
-    (h : Placed rs r i0 items) (pre post : List LItem) (l : Nat) (nm : Bool) (e : items = pre ++ LItem.label l nm :: post) {q : Nat}
-    (hq : q = i0 + pre.length) : target rs l = ⟨r, q⟩ := by
+theorem Placed.lbl' {c : Copy} {rs : List (List LItem)} (hn : (labelIds rs.flatten).Nodup) {r i0 : Nat} {items : List LItem}
+    (h : Placed c rs r i0 items) (pre post : List LItem) (l : Nat) (nm : Bool) (e : items = pre ++ LItem.label l nm :: post) {q : Nat}
+    (hq : q = i0 + pre.length) : target rs (c.σ l) = ⟨r, q⟩ := by
   subst e hq; exact h.lbl hn
 
-theorem Placed.mid' {rs : List (List LItem)} {r i0 : Nat} {items : List LItem} (h : Placed rs r i0 items) (pre mid post : List LItem)
-    (e : items = pre ++ mid ++ post) {q : Nat} (hq : q = i0 + pre.length) : Placed rs r q mid := by
+theorem Placed.mid' {c : Copy} {rs : List (List LItem)} {r i0 : Nat} {items : List LItem} (h : Placed c rs r i0 items) (pre mid post : List LItem)
+    (e : items = pre ++ mid ++ post) {q : Nat} (hq : q = i0 + pre.length) : Placed c rs r q mid := by
   subst e hq; exact h.mid
 
 theorem LPos.next_eq (r i q : Nat) (h : q = i + 1) : (⟨r, i⟩ : LPos).next = ⟨r, q⟩ := by
@@ -36,13 +36,13 @@ theorem LPos.next_eq (r i q : Nat) (h : q = i + 1) : (⟨r, i⟩ : LPos).next = 
 
 /-! ### the node table under `set` -/
 
-theorem Grow.set_ge {Z : Nat} {b b' : Src.B} (h : Grow Z b b') {i : Nat} (hi : (tbl b).length ≤ i) (n : Src.Node) : Grow Z b (b'.set i n) := by
+theorem Grow.set_ge {Z : Nat → Prop} {b b' : Src.B} (h : Grow Z b b') {i : Nat} (hi : (tbl b).length ≤ i) (n : Src.Node) : Grow Z b (b'.set i n) := by
   refine ⟨by rw [tbl_set]; simpa using h.1, fun j hj => ?_⟩
   have : (tbl (b'.set i n))[j]? = (tbl b')[j]? := by rw [tbl_set, List.getElem?_set_ne (by omega)]
   rw [this]; exact h.2 j hj
 
 /-- the node of a label becomes the `silent` node of the label statement -/
-theorem Grow.set_lab {Z : Nat} (b : Src.B) {i : Nat} (hi : 0 < i ∧ i < Z) (k : Nat) : Grow Z b (b.set i (.silent k)) := by
+theorem Grow.set_lab {Z : Nat → Prop} (b : Src.B) {i : Nat} (hi : Z i) (k : Nat) : Grow Z b (b.set i (.silent k)) := by
   refine ⟨by rw [tbl_set]; simp, fun j hj => ?_⟩
   by_cases e : i = j
   · subst e
@@ -50,14 +50,14 @@ theorem Grow.set_lab {Z : Nat} (b : Src.B) {i : Nat} (hi : 0 < i ∧ i < Z) (k :
   · exact .inl (by rw [tbl_set, List.getElem?_set_ne e])
 
 /-- a loop head: a placeholder is pushed, the body is translated, the placeholder is overwritten -/
-theorem agree_set {N : List Src.Node} {Z : Nat} {b b2 : Src.B} {n ph : Src.Node} (hag : AgreeOn N Z b (b2.set (tbl b).length n))
+theorem agree_set {N : List Src.Node} {Z : Nat → Prop} {b b2 : Src.B} {n ph : Src.Node} (hag : AgreeOn N Z b (b2.set (tbl b).length n))
     (g : Grow Z (b.push ph).1 b2) : N[(tbl b).length]? = some n ∧ AgreeOn N Z (b.push ph).1 b2 := by
   have hl1 : (tbl (b.push ph).1).length = (tbl b).length + 1 := by rw [(tbl_push b ph).1]; simp
   have hl2 := g.len
   have hlen : (tbl (b2.set (tbl b).length n)).length = (tbl b2).length := by rw [tbl_set]; simp
   constructor
   · rw [hag.2 _ (Nat.le_refl _) (by rw [hlen]; omega), tbl_set, List.getElem?_set_self (by omega)]
-  · refine ⟨by have := hag.1; omega, fun i h1 h2 => ?_⟩
+  · refine ⟨fun i hz => by have := hag.1 i hz; omega, fun i h1 h2 => ?_⟩
     rw [hag.2 i (by omega) (by rw [hlen]; exact h2), tbl_set, List.getElem?_set_ne (by omega)]
 
 theorem plainEnv_loop {cx : Cx} {env : Src.Env} (he : EnvOK cx env) (c bl : Option Nat) : EnvOK cx { env with cont := c, brkLoop := bl } :=
@@ -71,7 +71,7 @@ theorem loneJump_two (x y : LItem) (l : List LItem) : loneJump (x :: y :: l) = n
 /-- one `Jump` to a label of the loop / case stack -/
 theorem exit_piece (cx : Cx) (o l : Nat) (s s' : St) (hs : SameStk s s') (env : Src.Env)
     (trf : Nat → Src.B → Src.B × Nat) (hgrow : ∀ k b, Grow cx.Z b (trf k b).1)
-    (hex : ∀ m j, ExitsOK cx m j s env → NamedIn cx s' → ∃ n, (∀ k b, trf k b = (b, n)) ∧ R2 cx m j (target cx.rs l) n) :
+    (hex : ∀ m j, ExitsOK cx m j s env → NamedIn cx s' → ∃ n, (∀ k b, trf k b = (b, n)) ∧ R2 cx m j (target cx.rs (cx.cp.σ l)) n) :
     PieceOK cx [.ljump ⟨o, Gen.op_jump, []⟩ (some l)] s s' trf env := by
   refine ⟨hs.1, hs.2, hs.3, ?_, ?_, ?_, ?_, hgrow, ?_⟩
   · simp [lastNotCtx, isCtxL]
@@ -83,10 +83,10 @@ theorem exit_piece (cx : Cx) (o l : Nat) (s s' : St) (hs : SameStk s s') (env : 
   · intro r i0 hp _ k b _ m j hx hin _
     obtain ⟨n, htr, hr⟩ := hex m j hx hin
     rw [htr]
-    have hit : itemAt cx.rs ⟨r, i0⟩ = some (.ljump ⟨o, Gen.op_jump, []⟩ (some l)) := by simpa using hp.item (d := 0) rfl
+    have hit : ItemC cx.cp cx.rs ⟨r, i0⟩ (.ljump ⟨o, Gen.op_jump, []⟩ (some l)) := by simpa using hp.item (d := 0) rfl
     exact ⟨R2.silL (lab_jump hit jump_isJump) hr, LabExport.same (fun _ _ => rfl)⟩
 
-theorem cont_pm (cx : Cx) (fuel : Nat) (env : Src.Env) : PM cx contStmt (fun k b => Src.tr fuel [] env .cont k b) env := by
+theorem cont_pm (cx : Cx) (fuel : Nat) (env : Src.Env) : PM cx contStmt (fun k b => Src.tr fuel cx.sm env .cont k b) env := by
   intro s items s' h
   simp only [contStmt, bind_ok, getSt_ok] at h
   obtain ⟨s0, s1, h1, h2⟩ := h
@@ -109,7 +109,7 @@ theorem cont_pm (cx : Cx) (fuel : Nat) (env : Src.Env) : PM cx contStmt (fun k b
     · obtain ⟨kc, kb, e1, _, r1, _⟩ := hx.loop l.1 l.2 rest hl
       exact ⟨kc, fun k b => by rw [Src.tr]; simp [e1], r1⟩
 
-theorem brkLoop_pm (cx : Cx) (fuel : Nat) (env : Src.Env) : PM cx brkLoopStmt (fun k b => Src.tr fuel [] env .brkLoop k b) env := by
+theorem brkLoop_pm (cx : Cx) (fuel : Nat) (env : Src.Env) : PM cx brkLoopStmt (fun k b => Src.tr fuel cx.sm env .brkLoop k b) env := by
   intro s items s' h
   simp only [brkLoopStmt, bind_ok, getSt_ok] at h
   obtain ⟨s0, s1, h1, h2⟩ := h
@@ -132,7 +132,7 @@ theorem brkLoop_pm (cx : Cx) (fuel : Nat) (env : Src.Env) : PM cx brkLoopStmt (f
     · obtain ⟨kc, kb, _, e2, _, r2⟩ := hx.loop l.1 l.2 rest hl
       exact ⟨kb, fun k b => by rw [Src.tr]; simp [e2], r2⟩
 
-theorem brk_pm (cx : Cx) (fuel : Nat) (env : Src.Env) : PM cx brkStmt (fun k b => Src.tr fuel [] env .brk k b) env := by
+theorem brk_pm (cx : Cx) (fuel : Nat) (env : Src.Env) : PM cx brkStmt (fun k b => Src.tr fuel cx.sm env .brk k b) env := by
   intro s items s' h
   simp only [brkStmt, bind_ok, getSt_ok] at h
   obtain ⟨s0, s1, h1, h2⟩ := h
@@ -171,15 +171,15 @@ theorem loop_block_shape {bodyM : M (List LItem)} {sa sc : St} {blk : Blk} (h : 
 /-- entering the block of a loop body runs the body; after it control is behind the block's end label -/
 theorem loop_body_run (cx : Cx) {ops : List LItem} {sa sb : St} {trB : Nat → Src.B → Src.B × Nat} {env' : Src.Env}
     (hB : PieceOK cx ops sa sb trB env') (sL eB : Nat) (tail : List LItem) {r ib : Nat}
-    (hp : Placed cx.rs r ib ([.label sL false] ++ ops ++ [.label eB false] ++ tail)) (k : Nat) (b : Src.B)
+    (hp : Placed cx.cp cx.rs r ib ([.label sL false] ++ ops ++ [.label eB false] ++ tail)) (k : Nat) (b : Src.B)
     (hag : AgreeOn cx.N cx.Z b (trB k b).1) (m j : Nat) (hex : ExitsOK cx m j sa env') (hin : NamedIn cx sb)
     (hafter : falls ops = true → R2 cx m j ⟨r, ib + ops.length + 2⟩ k) :
     R2 cx m j ⟨r, ib⟩ (trB k b).2 ∧ LabExport cx env' m j b (trB k b).1 := by
-  have hp' : Placed cx.rs r ib ([.label sL false] ++ ops ++ ([.label eB false] ++ tail)) := by
+  have hp' : Placed cx.cp cx.rs r ib ([.label sL false] ++ ops ++ ([.label eB false] ++ tail)) := by
     simpa [List.append_assoc] using hp
   have hafter' : falls ops = true → R2 cx m j ⟨r, ib + 1 + ops.length⟩ k := by
     intro hfo
-    have hit : itemAt cx.rs ⟨r, ib + 1 + ops.length⟩ = some (.label eB false) := by
+    have hit : ItemC cx.cp cx.rs ⟨r, ib + 1 + ops.length⟩ (.label eB false) := by
       have e0 : ib + 1 + ops.length = ib + ([LItem.label sL false] ++ ops).length := by simp; omega
       rw [e0]
       exact Placed.here (pre := [.label sL false] ++ ops) (x := .label eB false) (post := tail) (by simpa [List.append_assoc] using hp)
